@@ -256,6 +256,9 @@ class ComplexWaveFunction(WaveFunctionBase):
 
     @staticmethod
     def autoload(location, gpu=False):
+        # `location` may be an open file object: remember where the data starts so
+        # that it can be read a second time by `load` below
+        start = location.tell() if hasattr(location, "seek") else None
         state_dict = torch.load(location)
         wvfn = ComplexWaveFunction(
             unitary_dict=state_dict["unitary_dict"],
@@ -263,5 +266,7 @@ class ComplexWaveFunction(WaveFunctionBase):
             num_hidden=len(state_dict["rbm_am"]["hidden_bias"]),
             gpu=gpu,
         )
+        if start is not None:
+            location.seek(start)
         wvfn.load(location)
         return wvfn
